@@ -83,6 +83,31 @@ int own_good(size_t n, int flag) {
     return 0;
 }
 
+/* a scratch buffer that lives on the stack when small and on the heap otherwise: the heap arm is released by the
+   `!= stack object` test (good); the bad twin releases only when the pointer EQUALS the stack buffer, i.e. never */
+int own_stack_or_heap_good(size_t n, int flag) {
+    char small[64];
+    char* t = small;
+    if (n > sizeof small) {
+        t = (char*)malloc(n);
+        if (!t) return -1;
+    }
+    t[0] = (char)flag;
+    if (t != small) free(t);
+    return 0;
+}
+int own_stack_or_heap_bad(size_t n, int flag) {
+    char small[64];
+    char* t = small;
+    if (n > sizeof small) {
+        t = (char*)malloc(n);
+        if (!t) return -1;
+    }
+    t[0] = (char)flag;
+    if (t == small) return 1;     /* fine */
+    return 0;                     /* leaks the heap arm */
+}
+
 /* ---- R4.cursor */
 int cursor_decode_bad(const uint8_t* src, size_t src_size, uint32_t* out) {
     const uint8_t* ip = src;
